@@ -32,7 +32,14 @@ if [ ! -x "$BIN" ]; then
   rm -rf "$SRC"; mkdir -p "$SRC"
   cp -r "$SCR/src" "$SRC/src"
   sed "s#$SCR#$SRC#g" "$SCR/overlay.json" > "$SRC/overlay.json"
-  (cd $V/harness && go test -c -vet=off -overlay="$SRC/overlay.json" -o "$BIN.tmp" . ) >"$SCR/build.log" 2>&1 || { cat "$SCR/build.log" >&2; rm -rf "$SRC"; echo "INFRA: harness build failed" >&2; exit 2; }
+  modflag=()
+  if [ "$REPO" != "/repo" ]; then
+    # a tree other than /repo (scratch copy with a seeded change): same module graph, other replace target
+    sed "s#^replace github.com/flant/shell-operator => /repo#replace github.com/flant/shell-operator => $REPO#" $V/harness/go.mod > "$SRC/alt.mod"
+    cp $V/harness/go.sum "$SRC/alt.sum"
+    modflag=(-modfile="$SRC/alt.mod")
+  fi
+  (cd $V/harness && go test -c -vet=off "${modflag[@]}" -overlay="$SRC/overlay.json" -o "$BIN.tmp" . ) >"$SCR/build.log" 2>&1 || { cat "$SCR/build.log" >&2; rm -rf "$SRC"; echo "INFRA: harness build failed" >&2; exit 2; }
   mv "$BIN.tmp" "$BIN"
   rm -rf "$SRC"
   # keep the cache small: newest 12 binaries
